@@ -215,6 +215,8 @@ def gen_random(rng, i, big=False):
             early = early or k < nwf
             body = ['gst', 'lst', 'w:0:0'] + ['nop'] * rng.randint(0, 6) + ['xge:%d' % k, 'bar', 'gld', 'lld', 'w:0:0', 'out']
             kernels.append({'mode': 'uniform', 'nwf': nwf, 'body': body})
+        if rng.random() < 0.25:
+            kernels[-1]['tail'] = rng.randint(1, 63)  # partial last wavefront (EXEC mask with holes at the end)
         wgs.append({'k': g, 'at': rng.choice([0, 0, 5, 40, 200])})
     sc = {'name': 'rand%d' % i, 'kernels': kernels, 'wgs': wgs, 'mem': _env(rng), 'vals': vals, 'sb': rng.random() < 0.3}
     if rng.random() < 0.15:
@@ -706,12 +708,14 @@ def sys_scenarios(rng, thorough):
         nwf = rng.choice([2, 3, 4, 8])
         epochs = rng.randint(1, 2)
         progs = gen_structured(rng, nwf, epochs, {}, rng.choice([0, 6]))
-        out.append(({'name': 'sys%d' % i, 'kernels': [{'mode': 'table', 'progs': progs}], 'wgs': [{'k': 0, 'at': 0}] * rng.randint(1, 3),
+        out.append(({'name': 'sys%d' % i, 'kernels': [{'mode': 'table', 'progs': progs, 'tail': rng.choice([0, 0, 17, 63])}],
+                     'wgs': [{'k': 0, 'at': 0}] * rng.randint(1, 3),
                      'mem': env, 'vals': True, 'sys': 'r9nano'}, False))
     # shipped (compiled) kernels with barriers, run by their own host code
     shipped = [('matrixtranspose', [64])]
     if thorough:
-        shipped += [('matrixtranspose', [128]), ('matrixmultiplication', [32, 32, 32]), ('nw', [64]), ('stencil2d', [1, 64, 64])]
+        shipped += [('matrixtranspose', [128]), ('matrixmultiplication', [32, 32, 32]), ('nw', [64]), ('stencil2d', [1, 64, 64]),
+                    ('fft', [16384, 1]), ('nbody', [1, 128])]
     for b, a in shipped:
         out.append(({'name': 'shipped_%s_%s' % (b, '_'.join(map(str, a))), 'bench': b, 'benchargs': a, 'kernels': [], 'wgs': [],
                      'mem': env}, False))
